@@ -1,6 +1,7 @@
 package run
 
 import (
+	"github.com/goghcrow/yae"
 	"fmt"
 
 	"github.com/goghcrow/yae/parser"
@@ -35,6 +36,21 @@ func YaeParse(src string, ops []ref.Op) (tree ast.Expr, p *Panic) {
 		}
 		toks := lexer.NewLexer(append([]oper.Operator(nil), yo...)).Lex(src)
 		tree = parser.NewParser(append([]oper.Operator(nil), yo...)).Parse(toks)
+	})
+	return
+}
+
+// YaeParseFacade parses src through the public engine: the custom operators are registered on
+// a yae.Expr (the built-in table is added by the engine itself), either before the engine is
+// first used or after it has already parsed something.
+func YaeParseFacade(src string, custom []ref.Op, lateRegistration bool) (tree ast.Expr, p *Panic) {
+	p = Guard(func() {
+		e := yae.NewExpr()
+		if lateRegistration {
+			_ = Guard(func() { e.Parse("1 + 1") })
+		}
+		e.RegisterOperator(YaeOps(custom)...)
+		tree = e.Parse(src)
 	})
 	return
 }
